@@ -154,7 +154,14 @@ def _sites (repo, f):
           verdict, why = _prove_len(repo, f, g, n, buf, need)
           what = "struct read `%s`" % norm(x)[:60]
           if verdict == 'proved': continue
-          if verdict == 'undecided': und.append(Site(f, n, 'struct', 'error', None, what + ": " + why)); continue
+          if verdict == 'undecided':
+            # not provable.  If nothing that dominates the read even looks at the buffer's length (here or, for a
+            # helper, at its call sites - checked by the caller of _sites) it is a candidate for a plain violation
+            lv = _lenvars(f, buf)
+            looks = any(any(v_ in txt for v_ in lv) or 'len(' in txt for txt in q.fact_strs(g, n))
+            sx = Site(f, n, 'struct', 'error', None, what + ": " + why)
+            sx.unguarded = not looks
+            und.append(sx); continue
           out.append(Site(f, n, 'struct', 'error', None, what + ": " + why))
         elif isinstance(x, ast.Subscript) and isinstance(x.ctx, ast.Load) and isinstance(x.value, ast.Name) and x.value.id in bufs and not isinstance(x.slice, ast.Slice):
           if isinstance(x.slice, ast.UnaryOp): continue
@@ -262,6 +269,36 @@ def run (ctx):
                 local[f.qual].append(Site(f, cn, 'attr', 'AttributeError', None,
                   "`from . import %s` binds the *class* %s (pox.lib.packet re-exports it over the module), so `%s.%s` is an AttributeError" % (al.name, r.name, nm, x.attr)))
   analyse(root)
+  # reads that could not be proven and that no dominating test - in the function or at any of its call sites - relates
+  # to the buffer's length at all: these are plain unguarded reads, not proof failures
+  callers = {}
+  for cq, es in edges.items():
+    for n_, c_, t_ in es: callers.setdefault(t_.qual, []).append((cq, n_))
+  n_prom = 0
+  for qual, und in list(undecided.items()):
+    keep = []
+    for s_ in und:
+      if getattr(s_, 'unguarded', False):
+        cl = callers.get(qual, [])
+        looked = False
+        for cq, n_ in cl:
+          cf_ = funcs.get(cq)
+          # the expression handed over as the buffer, and what in the caller bounds its length
+          lvs = set()
+          for c_ in q.node_calls(n_):
+            for a_ in list(c_.args) + [k_.value for k_ in c_.keywords]:
+              b_ = a_
+              while isinstance(b_, ast.Subscript): b_ = b_.value
+              bt = norm(b_)
+              lvs.add('len(%s)' % bt)
+              if cf_ is not None and isinstance(b_, ast.Name): lvs |= _lenvars(cf_, bt)
+          if any(any(v_ in t_ for v_ in lvs) for t_ in q.fact_strs(cfgs[cq], n_)): looked = True
+        if not looked:
+          s_.what = s_.what.split(': ')[0] + ": no test that dominates this read (here or at its %d call site(s)) relates to the length of the buffer" % len(cl)
+          local[qual].append(s_); n_prom += 1; continue
+      keep.append(s_)
+    undecided[qual] = keep
+  ctx.stat('unguarded_reads_promoted', n_prom)
   ctx.floor('functions on parse chains', len(local), 50)
   n_sites = sum(len(v) for v in local.values())
   ctx.stat('raising_sites_before_containment', n_sites)
@@ -317,6 +354,95 @@ def run (ctx):
   ctx.floor('struct reads on parse chains', n_reads, 50)
   ctx.floor('struct reads proved in range by guards', n_guarded, 25)
   ctx.ob('R-CONTAIN', root, "no raising primitive escapes ethernet.parse", not seen, "%d raising sites on %d functions, all guarded or contained" % (n_sites, len(local)) if not seen else "%d site(s) escape" % len(seen), root, 'D1')
+  # ---- D1b Python-3 bytes discipline and format strings on the parse chains -------------------------------------
+  # (a) ord() applied to an element of a bytes object (indexing bytes yields an int: TypeError)
+  n_ord = 0
+  for qual in sorted(local):
+    f = funcs.get(qual)
+    if f is None: continue
+    cls_ = f.cls
+    # which names hold frame bytes here: raw, slices of raw, parameters that every call site in the class feeds with such
+    # values, attributes assigned from them anywhere in the class
+    battrs = set()
+    if cls_ is not None:
+      for m_ in cls_.methods.values():
+        for t, v, st, k in q.stores_in(m_.node):
+          if isinstance(t, ast.Attribute) and norm(t.value) == 'self' and v is not None and isinstance(v, ast.Subscript) and isinstance(v.slice, ast.Slice) and norm(v.value) in ('raw', 'self.raw'): battrs.add(t.attr)
+    def is_bytes_expr (e, fn, depth=0):
+      if isinstance(e, ast.Name) and e.id == 'raw': return True
+      if isinstance(e, ast.Subscript) and isinstance(e.slice, ast.Slice): return is_bytes_expr(e.value, fn, depth)
+      if isinstance(e, ast.Attribute) and norm(e.value) == 'self' and e.attr in battrs | {'raw'}: return True
+      if isinstance(e, ast.Name) and depth < 3:
+        if e.id in fn.params and cls_ is not None:
+          sites_ = [c for m_ in cls_.methods.values() for c in calls_in(m_.node) if isinstance(c.func, ast.Attribute) and c.func.attr == fn.name and norm(c.func.value) == 'self']
+          idx = fn.params.index(e.id) - 1
+          if sites_ and all(len(c.args) > idx >= 0 and is_bytes_expr(c.args[idx], [m_ for m_ in cls_.methods.values() if any(x is c for x in ast.walk(m_.node))][0], depth + 1) for c in sites_): return True
+        ds = [v for v, st, k in q.reaching_assign(fn.node, e.id)]
+        if ds and all(v is not None and is_bytes_expr(v, fn, depth + 1) for v in ds): return True
+      return False
+    for x in walk_no_nested(f.node):
+      if isinstance(x, ast.Call) and isinstance(x.func, ast.Name) and x.func.id == 'ord' and len(x.args) == 1:
+        a_ = x.args[0]
+        if isinstance(a_, ast.Subscript) and not isinstance(a_.slice, ast.Slice) and is_bytes_expr(a_.value, f):
+          n_ord += 1
+          ctx.bad('R-BYTES', f, "`%s`" % norm(x), "`%s` is an element of a bytes object, i.e. already an int in Python 3: ord() raises TypeError for every frame that reaches this statement" % norm(a_), (f.module, x), 'D1')
+  ctx.stat('ord_on_bytes_elements', n_ord)
+  # (b) %-format arity: a literal format applied to a literal tuple of the wrong size raises TypeError whenever the
+  #     statement runs (typically a warning on a rarely taken guard path)
+  import re as _re
+  n_fmt = 0
+  for qual in sorted(local):
+    f = funcs.get(qual)
+    if f is None: continue
+    for x in ast.walk(f.node):
+      if isinstance(x, ast.BinOp) and isinstance(x.op, ast.Mod) and isinstance(x.left, ast.Constant) and isinstance(x.left.value, str) and isinstance(x.right, ast.Tuple):
+        spec_n = len(_re.findall(r'%(?!%)(?:\([^)]*\))?[#0\- +]*(?:\*|\d+)?(?:\.(?:\*|\d+))?[hlL]?[diouxXeEfFgGcrsab]', x.left.value.replace('%%', '')))
+        if '%(' in x.left.value: continue
+        n_fmt += 1
+        if spec_n != len(x.right.elts):
+          ctx.bad('R-DEF', f, "format `%s` is applied to %d value(s)" % (x.left.value[:40], len(x.right.elts)),
+                  "the literal has %d conversion(s) but the tuple has %d element(s) - (`%%` binds tighter than `+`, so only this literal is formatted): TypeError as soon as this statement runs; "
+                  "on a parse path that turns a malformed frame into an exception" % (spec_n, len(x.right.elts)), (f.module, x), 'D1')
+  ctx.stat('literal_formats_checked', n_fmt)
+  # (c) the length handed to the IPv6 extension-header decoders is what is left after the fixed header
+  ip6 = repo.cls('lib.packet.ipv6', 'ipv6'); ip6p = ip6.methods.get('parse')
+  if ip6p is not None:
+    g6 = q.cfg_of(ip6p)
+    for t, v, st, k in q.stores_in(ip6p.node, nested=False):
+      if isinstance(t, ast.Name) and v is not None and 'len(raw)' in norm(v) and k == 'assign':
+        n6 = q.enclosing_stmt_node(g6, st)
+        if n6 is None or not any(('%s >' % t.id) in f_ or ('< %s' % t.id) in f_ for f_ in q.fact_strs(g6, n6)): continue
+        b_, k_ = q.linear(ast.BinOp(left=v, op=ast.Sub(), right=ast.Call(func=ast.Name(id='len', ctx=ast.Load()), args=[ast.Name(id='raw', ctx=ast.Load())], keywords=[])), ip6p.node)
+        good = norm(v) in ('len(raw) - offset', 'len(raw) - 40', 'len(raw) - self.MIN_LEN', 'len(raw) - ipv6.MIN_LEN', 'dlen - offset')
+        ctx.ob('R-AGREE', ip6p, "the available length is clamped to the bytes left after the fixed header (`%s`)" % norm(st)[:50], good, norm(st) if good else
+               "`%s` clamps to the whole buffer although %s bytes of it are the fixed header: extension-header decoders are told more data is available than the buffer holds and read past its end" % (norm(st), 'offset'), (ip6.module, st), 'D1')
+  # (d) a protocol class that prints itself with its own __str__ (bypassing packet_base's catch-all) must not apply a
+  #     numeric conversion to a field that is still None when parse() gave up early
+  for m in mods.values():
+    for cls in m.classes.values():
+      sf = cls.methods.get('__str__'); init = cls.methods.get('__init__'); pf = cls.methods.get('parse')
+      if sf is None or init is None or pf is None: continue
+      none_fields = set(t.attr for t, v, st, k in q.stores_in(init.node) if isinstance(t, ast.Attribute) and norm(t.value) == 'self' and isinstance(v, ast.Constant) and v.value is None)
+      early = [r for r in q.returns_of(pf.node)]
+      if not none_fields or not early: continue
+      gs_ = q.cfg_of(sf)
+      for x in ast.walk(sf.node):
+        if isinstance(x, ast.BinOp) and isinstance(x.op, ast.Mod) and isinstance(x.left, ast.Constant) and isinstance(x.left.value, str):
+          specs = _re.findall(r'%(?!%)[#0\- +]*(?:\d+)?(?:\.\d+)?([diouxXeEfFgGcrsab])', x.left.value)
+          args = x.right.elts if isinstance(x.right, ast.Tuple) else [x.right]
+          if len(specs) != len(args): continue
+          for sp_, a_ in zip(specs, args):
+            if sp_ in 'diouxXeEfFgGc' and isinstance(a_, ast.Attribute) and norm(a_.value) == 'self' and a_.attr in none_fields:
+              nx = q.enclosing_stmt_node(gs_, x)
+              fs = q.fact_strs(gs_, nx) if nx is not None else []
+              guarded = any(('self.%s is not None' % a_.attr) in f_ or 'self.parsed:truthy' in f_ or f_.startswith('isinstance(self.%s, ' % a_.attr) and f_.endswith(':truthy') or f_ == 'self.%s:truthy' % a_.attr
+                            or (f_.startswith('self.%s is None' % a_.attr) is False and ('self.%s is None' % a_.attr) in f_ and False) for f_ in fs)
+              # an `elif` after `if self.X is None ...` also excludes None
+              guarded = guarded or any(isinstance(t_, ast.Compare) and not pol_ and isinstance(t_.ops[0], ast.Is) and norm(t_.left) == 'self.%s' % a_.attr and norm(t_.comparators[0]) == 'None' for t_, pol_, b_ in (gs_.guards(nx) if nx is not None else []))
+              # is the field assigned before every early return of parse()?  (then it cannot be None once parse ran)
+              ctx.ob('R-DEF', sf, "`%%%s` of self.%s is not reached while the field is still None" % (sp_, a_.attr), guarded,
+                     "guarded" if guarded else
+                     "%s.__str__ formats self.%s with %%%s; __init__ sets it to None and parse() can return before assigning it (truncated frame): str()/dump() of the parse result raises TypeError" % (cls.name, a_.attr, sp_), (m, x), 'D4')
   # ---- D4 printing / re-serialising ---------------------------------------------------------------------------
   pb = repo.cls('lib.packet.packet_base', 'packet_base')
   st = pb.methods.get('__str__')
@@ -340,6 +466,19 @@ def run (ctx):
         ctx.ob('R-AGREE', cls.qual, "parsed field `%s` can always be re-serialised (same struct code)" % name, good, "code %s" % a if good else
                "parse() reads `%s` with '%s' but hdr() packs it with '%s': a frame with the top bit set there parses and prints but pack() raises struct.error" % (name, a, b), (m, hcall), 'D4')
   ctx.floor('parse/hdr field codes compared', n_codes, 45)
+  # what parse() extracts from a bit-field word must fit back into the word hdr() assembles (a field left unshifted, or
+  # masked wider than its slot, parses and prints but makes struct.pack overflow when the frame is re-serialised):
+  # the same sample-domain evaluation as C14's composite rule, here for its effect on re-serialisation
+  n_bf = 0
+  for m in mods.values():
+    for cls in m.classes.values():
+      pf = cls.methods.get('parse'); hf = cls.methods.get('hdr')
+      if pf is None or hf is None: continue
+      P = c14._parse_items(repo, cls, pf); H, hsize, hcall = c14._hdr_items(repo, cls, hf)
+      if not P or not H: continue
+      Pf = [x for x in P if x[0] < hsize]
+      n_bf += c14._bitfields(ctx, repo, m, cls, pf, hf, Pf, H, hcall)
+  ctx.floor('bit-field composites re-serialisable', n_bf, 4)
   # ---- D5 parser loops ----------------------------------------------------------------------------------------
   n_loops = 0
   for qual in local:
